@@ -1,7 +1,27 @@
 (* C11 - deletion removes exactly the requested objects; repack reclaims their space.  Statements only (partial). *)
 From Coq Require Import List ZArith NArith.
-From DOS Require Import Base Store StoreProofs StoreLemmas MonoStep.
+From DOS Require Import Base Store StoreProofs StoreLemmas MonoStep Programs ProgramsProofs PackProofs MaintProofs.
 Import ListNotations.
+
+Section C11.
+Variable H : bytes -> key.
+Variable inflate : bytes -> option bytes.
+Hypothesis H_inj : forall a b, H a = H b -> a = b.
+
+(* delete_objects(ks) as a program, ALL worlds and key lists (present, absent, repeated; loose, packed or both): afterwards no
+   requested key is stored, every other object reads back exactly as before, the invariant holds; pack files are untouched *)
+Theorem C11_delete_program : forall w l ks,
+  Inv H inflate w -> pending l = [] ->
+  let w' := crash (run_events (w, l) (p_delete w ks)) in
+  Inv H inflate w' /\ (forall k, In k ks -> stored inflate w' k = None) /\
+  (forall k c, ~ In k ks -> stored inflate w k = Some c -> stored inflate w' k = Some c).
+Proof.
+  intros w l ks A B. cbn zeta.
+  pose proof (delete_always H inflate w l ks A B (length (p_delete w ks))) as (X & Y). rewrite firstn_all in X, Y.
+  split; [exact X|]. split; [|exact Y]. intros k Hk. exact (delete_removes_requested H inflate w l ks k A B Hk).
+Qed.
+End C11.
+Print Assumptions C11_delete_program.
 
 (* the DELETE statement removes exactly the rows whose key was requested, and nothing else *)
 Theorem C11_delete_exactly_requested : forall d ks r, In r (apply_sql d (SDelete ks)) <-> In r d /\ ~ In (rkey r) ks.
